@@ -31,6 +31,8 @@ def _idx(spec):
             return tuple(_idx(s) for s in spec['t'])
         if 'all' in spec:
             return slice(None)
+        if 's' in spec:
+            return slice(*spec['s'])
     raise TypeError('bad index spec %r' % (spec,))
 
 
